@@ -10,6 +10,20 @@ from . import scripted as S
 
 
 def gen_bytes(rng, kind):
+    if kind == "comment":
+        # a program with plain Korean prose before / after it: start syllables after the last ending syllable, endings, fillers
+        prog = G.render(G.gen_program(rng, rng.choice([1, 2, 4])))
+        pre = rng.choice(["", "", rng.choice(P.KOREAN_PROSE) + "\n"])
+        post = rng.choice([" ", "\n", " # "]) + rng.choice(P.KOREAN_PROSE)
+        return (pre + prog + post + rng.choice(["", "\n"])).encode("utf-8")
+    if kind == "truncated":
+        # a valid file cut inside its last character, or ending in a lone lead byte (Latin-1 text, an interrupted download)
+        base = (G.render(G.gen_program(rng, 2)) + rng.choice(["", " ", "\n", " 끝", " é", " 🙂"])).encode("utf-8")
+        r = rng.random()
+        if r < 0.6:
+            cut = rng.choice([1, 1, 2, 3])
+            return base[:max(0, len(base) - cut)]
+        return base + rng.choice([b"\xc3", b"\xe9", b"\xe2\x82", b"\xf0\x9f", b"\xf0\x9f\x98", b"\xed", b"\xf4\x8f\xbf", b"caf\xe9"])
     if kind == "layout":
         return G.layout_program(rng).encode("utf-8")
     if kind == "bigarith":
@@ -67,12 +81,12 @@ def run(prop, tier, seed):
             jobs.append(("boundary", "b%d_%s.hyeong" % (i, sub), prog.encode("utf-8"), False, sub, b""))
     for k in range(n):
         r = rng.random()
-        kind = ("prog" if r < 0.25 else "bigarith" if r < 0.33 else "layout" if r < 0.42 else "noise" if r < 0.5 else "unstructured" if r < 0.57
-                else "empty" if r < 0.6 else "badutf8" if r < 0.8 else "reader")
+        kind = ("prog" if r < 0.2 else "bigarith" if r < 0.27 else "layout" if r < 0.35 else "comment" if r < 0.43 else "noise" if r < 0.5
+                else "unstructured" if r < 0.56 else "empty" if r < 0.59 else "badutf8" if r < 0.72 else "truncated" if r < 0.82 else "reader")
         fb = readers(rng).encode("utf-8") if kind == "reader" else gen_bytes(rng, kind)
         name = rng.choice(["p%d.hyeong"] * 12 + ["p%d.txt", "p%d", "p%d.hyeong.bak", "p%d.HYEONG"]) % k
         missing = rng.random() < 0.04
-        sub = rng.choice(["run0", "run1", "run2", "check"] + (["check"] * 4 if kind == "layout" else []))
+        sub = rng.choice(["run0", "run1", "run2", "check"] + (["check"] * 4 if kind in ("layout", "comment") else []))
         sb = gen_stdin_bytes(rng)
         jobs.append((kind, name, fb, missing, sub, sb))
 
